@@ -1,4 +1,5 @@
 import ScionVerif.Model.Layout
+import ScionVerif.Model.Access
 import ScionVerif.Lemmas.Bits
 /-!
 # Lemmas about the size computations of Model/Layout.lean (C02) 
@@ -15,21 +16,6 @@ open ScionVerif ScionVerif.Generated.Layout ScionVerif.Generated.AddrType
 theorem rd_ok (sl : Bytes) (r : BitRange) (h : r.byteHi ≤ sl.length) : rd sl r = .ok (readBits sl r) := by
   simp [rd, readChk, BitRange.inBuf, h]
 
-/-- the common-header fields the size computation reads -/
-structure CommonFields where
-  ver : Nat
-  pt : Nat
-  st : Nat
-  dt : Nat
-  hl : Nat
-  pl : Nat
-
-def commonFields (buf : Bytes) : CommonFields :=
-  let cb := buf.take CommonHeader.SIZE_BYTES
-  ⟨readBits cb CommonHeader.VERSION_RNG, readBits cb CommonHeader.PATH_TYPE_RNG,
-   readBits cb CommonHeader.SRC_ADDR_INFO_RNG, readBits cb CommonHeader.DST_ADDR_INFO_RNG,
-   readBits cb CommonHeader.HEADER_LEN_RNG, readBits cb CommonHeader.PAYLOAD_LEN_RNG⟩
-
 theorem Header.layout_eq (buf : Bytes) (h : CommonHeader.SIZE_BYTES ≤ buf.length) :
     Header.layout buf =
       let f := commonFields buf
@@ -44,10 +30,6 @@ theorem Header.layout_eq (buf : Bytes) (h : CommonHeader.SIZE_BYTES ≤ buf.leng
   rw [rd_ok _ _ (by rw [hl]; decide), rd_ok _ _ (by rw [hl]; decide), rd_ok _ _ (by rw [hl]; decide),
       rd_ok _ _ (by rw [hl]; decide), rd_ok _ _ (by rw [hl]; decide), rd_ok _ _ (by rw [hl]; decide)]
   rfl
-
-def segFields (buf : Bytes) (off : Nat) : Nat × Nat × Nat :=
-  let mb := (buf.drop off).take StdPathMeta.SIZE_BYTES
-  (readBits mb StdPathMeta.SEG0_LEN_RNG, readBits mb StdPathMeta.SEG1_LEN_RNG, readBits mb StdPathMeta.SEG2_LEN_RNG)
 
 theorem Header.pathPart_scion (buf : Bytes) (srcLen dstLen pt pl total : Nat) (hk : pathKind pt = .scion)
     (h : CommonHeader.SIZE_BYTES + addrHdrSize srcLen dstLen + StdPathMeta.SIZE_BYTES ≤ buf.length) :
@@ -442,3 +424,865 @@ theorem Scmp.min_le (buf : Bytes) (n : Nat) (h : Scmp.requiredSize buf = .ok n) 
     simp [this] at h
 
 end ScionVerif.Layout
+
+/-! # Access descriptors stay inside the view -/
+
+namespace ScionVerif.Access
+open ScionVerif ScionVerif.Layout ScionVerif.Generated.Layout ScionVerif.Generated.AddrType
+
+/-- every interval of every accessor is well-formed and ends inside the first `n` bytes -/
+def InB (n : Nat) (accs : List Acc) : Prop := ∀ a ∈ accs, ∀ r ∈ a.ranges, r.1 ≤ r.2 ∧ r.2 ≤ n
+
+theorem InB_append {n : Nat} {a b : List Acc} : InB n (a ++ b) ↔ InB n a ∧ InB n b := by
+  unfold InB
+  constructor
+  · intro h
+    exact ⟨fun x hx => h x (List.mem_append_left _ hx), fun x hx => h x (List.mem_append_right _ hx)⟩
+  · rintro ⟨h1, h2⟩ x hx
+    rcases List.mem_append.1 hx with hx | hx
+    · exact h1 x hx
+    · exact h2 x hx
+
+theorem InB_nil (n : Nat) : InB n [] := by intro a ha; simp at ha
+
+theorem InB_single {n : Nat} (name : String) (lo hi : Nat) (h1 : lo ≤ hi) (h2 : hi ≤ n) :
+    InB n [⟨name, [(lo, hi)]⟩] := by
+  intro a ha r hr
+  simp at ha; subst ha
+  simp at hr; subst hr
+  exact ⟨h1, h2⟩
+
+theorem InB_mono {m n : Nat} {accs : List Acc} (h : InB m accs) (hmn : m ≤ n) : InB n accs := by
+  intro a ha r hr
+  have := h a ha r hr
+  exact ⟨this.1, Nat.le_trans this.2 hmn⟩
+
+theorem InB_shift {m n off : Nat} {accs : List Acc} (h : InB m accs) (hmn : m + off ≤ n) :
+    InB n (accs.map (·.shift off)) := by
+  intro a ha r hr
+  obtain ⟨a0, ha0, rfl⟩ := List.mem_map.1 ha
+  simp only [Acc.shift] at hr
+  obtain ⟨r0, hr0, rfl⟩ := List.mem_map.1 hr
+  have := h a0 ha0 r0 hr0
+  simp only
+  omega
+
+theorem InB_fieldAccs {n size off : Nat} (tab : List (String × BitRange))
+    (ht : ∀ f ∈ tab, f.2.wf ∧ f.2.byteHi ≤ size) (h : size + off ≤ n) : InB n (fieldAccs tab off) := by
+  intro a ha r hr
+  unfold fieldAccs at ha
+  obtain ⟨f, hf, rfl⟩ := List.mem_map.1 ha
+  simp only [List.mem_singleton] at hr
+  subst hr
+  obtain ⟨hw, hb⟩ := ht f hf
+  have := f.2.byteLo_le_byteHi hw
+  simp only [fieldRng]
+  omega
+
+theorem InB_flatMap_range {n k : Nat} (g : Nat → List Acc) (h : ∀ i, i < k → InB n (g i)) :
+    InB n ((List.range k).flatMap g) := by
+  intro a ha
+  obtain ⟨i, hi, hai⟩ := List.mem_flatMap.1 ha
+  exact h i (List.mem_range.1 hi) a hai
+
+theorem commonTab_wf : ∀ f ∈ commonFieldsTab, f.2.wf ∧ f.2.byteHi ≤ CommonHeader.SIZE_BYTES := by decide
+theorem addrTab_wf : ∀ f ∈ addrFieldsTab, f.2.wf ∧ f.2.byteHi ≤ AddressHeader.FIXED_SIZE_BITS / 8 := by decide
+theorem metaTab_wf : ∀ f ∈ metaFieldsTab, f.2.wf ∧ f.2.byteHi ≤ StdPathMeta.SIZE_BYTES := by decide
+theorem infoTab_wf : ∀ f ∈ infoFieldsTab, f.2.wf ∧ f.2.byteHi ≤ InfoField.SIZE_BYTES := by decide
+theorem hopTab_wf : ∀ f ∈ hopFieldsTab, f.2.wf ∧ f.2.byteHi ≤ HopField.SIZE_BYTES := by decide
+theorem udpTab_wf : ∀ f ∈ udpFieldsTab, f.2.wf ∧ f.2.byteHi ≤ UdpDatagram.HEADER_SIZE_BYTES := by decide
+
+theorem stdDataSize_eq (a b c : Nat) :
+    stdDataSize a b c = infoCount a b c * InfoField.SIZE_BYTES + hopCount a b c * HopField.SIZE_BYTES := rfl
+
+/-- `StandardPathView`: every accessor stays inside a view of exactly the computed size -/
+theorem std_inB (p : Bytes) (n : Nat)
+    (hn : n = StdPathMeta.SIZE_BYTES + stdDataSize (segFields p 0).1 (segFields p 0).2.1 (segFields p 0).2.2)
+    (hp : p.length = n) : InB n (stdAccs p) := by
+  unfold stdAccs
+  simp only []
+  rw [stdDataSize_eq] at hn
+  generalize infoCount (segFields p 0).1 (segFields p 0).2.1 (segFields p 0).2.2 = ic at *
+  generalize hopCount (segFields p 0).1 (segFields p 0).2.1 (segFields p 0).2.2 = hc at *
+  have e8 : InfoField.SIZE_BYTES = 8 := by decide
+  have e12 : HopField.SIZE_BYTES = 12 := by decide
+  have e4 : StdPathMeta.SIZE_BYTES = 4 := by decide
+  simp only [e8, e12, e4] at hn ⊢
+  refine InB_append.2 ⟨InB_append.2 ⟨InB_append.2 ⟨?_, ?_⟩, ?_⟩, ?_⟩
+  · exact InB_fieldAccs (size := 4) _ (by have := metaTab_wf; rwa [e4] at this) (by omega)
+  · intro a ha r hr
+    simp at ha
+    rcases ha with rfl | rfl | rfl <;> simp at hr <;> subst hr <;> simp only <;> omega
+  · apply InB_flatMap_range
+    intro i hi
+    refine InB_fieldAccs (size := 8) _ (by have := infoTab_wf; rwa [e8] at this) ?_
+    have : i * 8 + 8 ≤ ic * 8 := by omega
+    omega
+  · apply InB_flatMap_range
+    intro j hj
+    refine InB_fieldAccs (size := 12) _ (by have := hopTab_wf; rwa [e12] at this) ?_
+    have : j * 12 + 12 ≤ hc * 12 := by omega
+    omega
+
+theorem oneHop_inB : InB OneHopPath.SIZE_BYTES oneHopAccs := by
+  unfold oneHopAccs
+  refine InB_append.2 ⟨InB_append.2 ⟨InB_append.2 ⟨?_, ?_⟩, ?_⟩, ?_⟩
+  · exact InB_single _ _ _ (by decide) (Nat.le_refl _)
+  · exact InB_fieldAccs _ infoTab_wf (by decide)
+  · exact InB_fieldAccs _ hopTab_wf (by decide)
+  · exact InB_fieldAccs _ hopTab_wf (by decide)
+
+
+theorem addrHdrSize_eq (s d : Nat) : addrHdrSize s d = AddressHeader.FIXED_SIZE_BITS / 8 + d + s := by
+  unfold addrHdrSize
+  have : AddressHeader.FIXED_SIZE_BITS = 128 := by decide
+  rw [this]; omega
+
+theorem segFields_sub (v : Bytes) (off m : Nat) (hm : StdPathMeta.SIZE_BYTES ≤ m) :
+    segFields ((v.drop off).take m) 0 = segFields v off := by
+  unfold segFields
+  rw [List.drop_zero, List.take_take, Nat.min_eq_left hm]
+
+/-- `ScionHeaderView`: every accessor (including those of the path sub-view) stays inside the view -/
+theorem header_inB (v : Bytes) (l : HdrLayout) (hs : HdrSpec v l) (hlen : l.headerLen = v.length) :
+    InB v.length (headerAccs v) := by
+  have h12 := hs.len12
+  have hsum := hs.sum
+  have hhl := hs.hl
+  have hpath := hs.path
+  unfold HdrLayout.pathOff at hsum
+  rw [hs.src, hs.dst] at hsum
+  unfold PathSpec at hpath
+  rw [hs.pt] at hpath
+  unfold HdrLayout.pathOff at hpath
+  rw [hs.src, hs.dst] at hpath
+  have hadd := addrHdrSize_eq (addrSize (commonFields v).st) (addrSize (commonFields v).dt)
+  have e16 : AddressHeader.FIXED_SIZE_BITS / 8 = 16 := by decide
+  have e12 : CommonHeader.SIZE_BYTES = 12 := by decide
+  unfold headerAccs
+  simp only []
+  refine InB_append.2 ⟨InB_append.2 ⟨InB_append.2 ⟨InB_append.2 ⟨?_, ?_⟩, ?_⟩, ?_⟩, ?_⟩
+  · exact InB_fieldAccs _ commonTab_wf (by omega)
+  · exact InB_fieldAccs _ addrTab_wf (by omega)
+  · intro a ha r hr
+    simp at ha
+    rcases ha with rfl | rfl | rfl <;> simp at hr <;> subst hr <;> simp only <;> omega
+  · unfold pathRng
+    simp only []
+    split at hpath <;> rename_i hk <;> simp only [hk]
+    · exact InB_single _ _ _ (by omega) (by omega)
+    · exact InB_single _ _ _ (by omega) (by omega)
+    · exact InB_nil _
+    · exact InB_single _ _ _ (by omega) (by omega)
+  · split at hpath <;> rename_i hk <;> simp only [hk]
+    · obtain ⟨h1, h2, h3⟩ := hpath
+      have e4 : StdPathMeta.SIZE_BYTES = 4 := by decide
+      have hm : (commonFields v).hl * 4 - (CommonHeader.SIZE_BYTES + addrHdrSize (addrSize (commonFields v).st) (addrSize (commonFields v).dt)) = l.pathSize := by omega
+      refine InB_shift (m := l.pathSize) ?_ (by omega)
+      apply std_inB
+      · rw [hm, segFields_sub _ _ _ (by omega), ← h2]; exact h3
+      · simp only [List.length_take, List.length_drop]; omega
+    · refine InB_shift oneHop_inB (by omega)
+    · exact InB_nil _
+    · exact InB_nil _
+
+theorem udp_inB (u : Bytes) (h : UdpDatagram.HEADER_SIZE_BYTES ≤ u.length) : InB u.length (udpAccs u) := by
+  unfold udpAccs
+  refine InB_append.2 ⟨InB_fieldAccs _ udpTab_wf (by omega), ?_⟩
+  intro a ha r hr
+  simp at ha
+  rcases ha with rfl | rfl <;> simp at hr <;> subst hr <;> simp only <;> omega
+
+theorem scmpMsg_inB (k : ScmpKindRow) (hk : k ∈ scmpKinds) (s : Bytes) (h : k.headerSize ≤ s.length) :
+    InB s.length (scmpMsgAccs k s) := by
+  unfold scmpMsgAccs
+  refine InB_append.2 ⟨InB_append.2 ⟨InB_fieldAccs _ (scmpKinds_wf k hk).2 (by omega), ?_⟩, ?_⟩
+  · exact InB_single _ _ _ (by omega) (Nat.le_refl _)
+  · split
+    · exact InB_single _ _ _ h (Nat.le_refl _)
+    · exact InB_nil _
+
+
+/-- what `ScionRawPacketView::has_required_size v = Ok(v.len())` means -/
+theorem raw_valid (v : Bytes) (h : RawPacket.requiredSize v = .ok v.length) :
+    ∃ l, HdrSpec v l ∧ l.headerLen = pktHl v ∧ l.payloadLen = pktPl v ∧ l.headerLen ≤ v.length ∧
+      v.length ≤ l.headerLen + l.payloadLen := by
+  unfold RawPacket.requiredSize at h
+  split at h
+  · rename_i l hl
+    have hs := (Header.layout_ok_iff v l).1 hl
+    injection h with h
+    refine ⟨l, hs, hs.hl, hs.pl, hs.fits, ?_⟩
+    omega
+  · contradiction
+
+theorem raw_inB (v : Bytes) (l : HdrLayout) (hs : HdrSpec v l) (h1 : l.headerLen = pktHl v) (h2 : l.payloadLen = pktPl v)
+    (h3 : l.headerLen ≤ v.length) : InB v.length (rawAccs v) := by
+  unfold rawAccs
+  refine InB_append.2 ⟨?_, ?_⟩
+  · intro a ha r hr
+    simp at ha
+    rcases ha with rfl | rfl | rfl <;> simp at hr <;> subst hr <;> simp only [payloadRange] <;> omega
+  · have hs' := hs.take (pktHl v) (by omega)
+    have := header_inB (v.take (pktHl v)) l hs' (by simp; omega)
+    refine InB_mono this (by simp only [List.length_take]; omega)
+
+theorem packetPayload_eq (v : Bytes) (l : HdrLayout) (h1 : l.headerLen = pktHl v) (h2 : l.payloadLen = pktPl v) :
+    packetPayload v l = pktPayload v := by
+  unfold packetPayload pktPayload
+  rw [h1, h2]
+
+theorem pktPayload_length (v : Bytes) (h : pktHl v ≤ v.length) :
+    (pktPayload v).length = min (pktPl v) (v.length - pktHl v) := by
+  unfold pktPayload payloadRange
+  simp only [List.length_take, List.length_drop]
+  omega
+
+theorem udpPkt_inB (v : Bytes) (h : UdpPacket.requiredSize v = .ok v.length) : InB v.length (udpPktAccs v) := by
+  unfold UdpPacket.requiredSize at h
+  split at h
+  · rename_i l hl
+    split at h
+    · rename_i m hm
+      have hs := (Header.layout_ok_iff v l).1 hl
+      rw [packetPayload_eq v l hs.hl hs.pl] at hm
+      obtain ⟨u1, u2, u3⟩ := (Udp.requiredSize_ok_iff _ _).1 hm
+      have hpl := pktPayload_length v (by have := hs.fits; have := hs.hl; unfold pktHl; omega)
+      have hfit := hs.fits
+      have hhl : l.headerLen = pktHl v := hs.hl
+      unfold udpPktAccs
+      simp only []
+      refine InB_append.2 ⟨raw_inB v l hs hs.hl hs.pl hs.fits, ?_⟩
+      refine InB_shift (m := min (pktPayload v).length (readBits (pktPayload v) UdpDatagram.LENGTH_RNG)) ?_ (by omega)
+      have := udp_inB ((pktPayload v).take (min (pktPayload v).length (readBits (pktPayload v) UdpDatagram.LENGTH_RNG)))
+        (by simp only [List.length_take]; omega)
+      simp only [List.length_take] at this
+      rw [Nat.min_eq_left (Nat.min_le_left _ _)] at this
+      exact this
+    · contradiction
+  · contradiction
+
+theorem scmpPkt_inB (v : Bytes) (h : ScmpPacket.requiredSize v = .ok v.length) : InB v.length (scmpPktAccs v) := by
+  unfold ScmpPacket.requiredSize at h
+  split at h
+  · rename_i l hl
+    split at h
+    · rename_i m hm
+      have hs := (Header.layout_ok_iff v l).1 hl
+      rw [packetPayload_eq v l hs.hl hs.pl] at hm
+      have hmin := Scmp.min_le _ _ hm
+      rw [Scmp.requiredSize_eq _ hmin] at hm
+      obtain ⟨u1, u2⟩ := (ScmpMsg.requiredSize_ok_iff _ _ _).1 hm
+      have hpl := pktPayload_length v (by have := hs.fits; have := hs.hl; unfold pktHl; omega)
+      have hfit := hs.fits
+      have hhl : l.headerLen = pktHl v := hs.hl
+      unfold scmpPktAccs
+      simp only []
+      refine InB_append.2 ⟨raw_inB v l hs hs.hl hs.pl hs.fits, ?_⟩
+      generalize hk : scmpRow (readBits ((pktPayload v).take scmpMinSize) ScmpMessage.TYPE_RNG) = k at *
+      have hkm : k ∈ scmpKinds := by rw [← hk]; exact scmpRow_mem _
+      refine InB_shift (m := if k.varLen then (pktPayload v).length else k.headerSize) ?_ (by split <;> omega)
+      have := scmpMsg_inB k hkm ((pktPayload v).take (if k.varLen then (pktPayload v).length else k.headerSize))
+        (by simp only [List.length_take]; split <;> omega)
+      simp only [List.length_take] at this
+      have e : min (if k.varLen then (pktPayload v).length else k.headerSize) (pktPayload v).length
+          = if k.varLen then (pktPayload v).length else k.headerSize := by split <;> omega
+      rw [e] at this
+      exact this
+    · contradiction
+  · contradiction
+
+/-- on a view whose bytes are exactly what `has_required_size` reported, every accessor is in bounds -/
+theorem access_in_bounds_view (k : ViewKind) (v : Bytes) (h : requiredSize k v = .ok v.length) :
+    InB v.length (accessors k v) := by
+  cases k with
+  | header =>
+    simp only [requiredSize, Header.requiredSize] at h
+    split at h
+    · rename_i l hl
+      injection h with h
+      exact header_inB v l ((Header.layout_ok_iff v l).1 hl) h
+    · contradiction
+  | stdPath =>
+    obtain ⟨h1, h2, h3⟩ := (StdPath.requiredSize_ok_iff v _).1 h
+    exact std_inB v _ h2 rfl
+  | oneHop =>
+    obtain ⟨h1, h2⟩ := (fixed_ok_iff _ _ v _).1 h
+    simp only [accessors]; rw [h2]; exact oneHop_inB
+  | infoField =>
+    obtain ⟨h1, h2⟩ := (fixed_ok_iff _ _ v _).1 h
+    exact InB_fieldAccs _ infoTab_wf (by omega)
+  | hopField =>
+    obtain ⟨h1, h2⟩ := (fixed_ok_iff _ _ v _).1 h
+    exact InB_fieldAccs _ hopTab_wf (by omega)
+  | rawPacket =>
+    obtain ⟨l, hs, h1, h2, h3, h4⟩ := raw_valid v h
+    exact raw_inB v l hs h1 h2 h3
+  | udpPacket => exact udpPkt_inB v h
+  | scmpPacket => exact scmpPkt_inB v h
+  | udp =>
+    obtain ⟨h1, h2, h3⟩ := (Udp.requiredSize_ok_iff v _).1 h
+    exact udp_inB v h1
+  | scmp =>
+    have hmin := Scmp.min_le _ _ h
+    simp only [requiredSize] at h
+    rw [Scmp.requiredSize_eq _ hmin] at h
+    obtain ⟨u1, u2⟩ := (ScmpMsg.requiredSize_ok_iff _ _ _).1 h
+    exact scmpMsg_inB _ (scmpRow_mem _) v u1
+  | scmpMsg i =>
+    obtain ⟨u1, u2⟩ := (ScmpMsg.requiredSize_ok_iff _ _ _).1 h
+    refine scmpMsg_inB _ ?_ v u1
+    simp only [List.getD]
+    cases hi : scmpKinds[i]? with
+    | none => simp; exact scmpRow_mem _
+    | some k => simp; exact List.mem_of_getElem? hi
+
+end ScionVerif.Access
+
+/-! # Size-neutral writes: the crate's safe setters keep every view valid -/
+
+namespace ScionVerif.Access
+open ScionVerif ScionVerif.Layout ScionVerif.Generated.Layout ScionVerif.Generated.AddrType
+
+/-- a field inside the first `m` bytes reads the same after a write that shares no bit with it -/
+theorem readBits_write_prefix (v : Bytes) (r R : BitRange) (x m : Nat) (hr : r.wf) (hrb : r.byteHi ≤ v.length)
+    (hR : R.wf) (hRm : R.byteHi ≤ m) (hm : m ≤ v.length) (hd : r.disjoint R) :
+    readBits ((writeBits v r x).take m) R = readBits (v.take m) R := by
+  rw [readBits_take _ _ _ hR hRm, readBits_take _ _ _ hR hRm,
+    readBits_writeBits_disjoint v r R x hr hrb hR (by omega) hd]
+
+/-- a field of a sub-slice `[a, a+m)` is the shifted field of the buffer -/
+theorem readBits_sub (v : Bytes) (a m : Nat) (R : BitRange) (hR : R.wf) (hRm : R.byteHi ≤ m) :
+    readBits ((v.drop a).take m) R = readBits v (R.shift a) := by
+  rw [readBits_take _ _ _ hR hRm, readBits_shift]
+
+theorem readBits_write_sub (v : Bytes) (r R : BitRange) (x a m : Nat) (hr : r.wf) (hrb : r.byteHi ≤ v.length)
+    (hR : R.wf) (hRm : R.byteHi ≤ m) (hm : a + m ≤ v.length) (hd : r.disjoint (R.shift a)) :
+    readBits (((writeBits v r x).drop a).take m) R = readBits ((v.drop a).take m) R := by
+  rw [readBits_sub _ _ _ _ hR hRm, readBits_sub _ _ _ _ hR hRm,
+    readBits_writeBits_disjoint v r _ x hr hrb (R.shift_wf a hR) (by rw [BitRange.shift_byteHi]; omega) hd]
+
+theorem commonFields_write (v : Bytes) (r : BitRange) (x : Nat) (hr : r.wf) (hrb : r.byteHi ≤ v.length)
+    (h12 : CommonHeader.SIZE_BYTES ≤ v.length)
+    (hd : ∀ R ∈ [CommonHeader.VERSION_RNG, CommonHeader.HEADER_LEN_RNG, CommonHeader.PAYLOAD_LEN_RNG,
+      CommonHeader.PATH_TYPE_RNG, CommonHeader.DST_ADDR_INFO_RNG, CommonHeader.SRC_ADDR_INFO_RNG], r.disjoint R) :
+    commonFields (writeBits v r x) = commonFields v := by
+  unfold commonFields
+  simp only []
+  rw [readBits_write_prefix v r _ x _ hr hrb (by decide) (by decide) h12 (hd _ (by simp)),
+      readBits_write_prefix v r _ x _ hr hrb (by decide) (by decide) h12 (hd _ (by simp)),
+      readBits_write_prefix v r _ x _ hr hrb (by decide) (by decide) h12 (hd _ (by simp)),
+      readBits_write_prefix v r _ x _ hr hrb (by decide) (by decide) h12 (hd _ (by simp)),
+      readBits_write_prefix v r _ x _ hr hrb (by decide) (by decide) h12 (hd _ (by simp)),
+      readBits_write_prefix v r _ x _ hr hrb (by decide) (by decide) h12 (hd _ (by simp))]
+
+theorem segFields_write (v : Bytes) (r : BitRange) (x off : Nat) (hr : r.wf) (hrb : r.byteHi ≤ v.length)
+    (h : off + StdPathMeta.SIZE_BYTES ≤ v.length)
+    (hd : ∀ R ∈ [StdPathMeta.SEG0_LEN_RNG, StdPathMeta.SEG1_LEN_RNG, StdPathMeta.SEG2_LEN_RNG], r.disjoint (R.shift off)) :
+    segFields (writeBits v r x) off = segFields v off := by
+  unfold segFields
+  simp only []
+  rw [readBits_write_sub v r _ x off _ hr hrb (by decide) (by decide) h (hd _ (by simp)),
+      readBits_write_sub v r _ x off _ hr hrb (by decide) (by decide) h (hd _ (by simp)),
+      readBits_write_sub v r _ x off _ hr hrb (by decide) (by decide) h (hd _ (by simp))]
+
+/-- the declarative header description survives every write that shares no bit with the protected ranges -/
+theorem hdrSpec_write {v : Bytes} {l : HdrLayout} (hs : HdrSpec v l) (r : BitRange) (x : Nat) (hr : r.wf)
+    (hrb : r.byteHi ≤ v.length) (hd : ∀ p ∈ headerProtected v, r.disjoint p) :
+    HdrSpec (writeBits v r x) l := by
+  have hlen := writeBits_length v r x hr hrb
+  have hcf : commonFields (writeBits v r x) = commonFields v := by
+    apply commonFields_write v r x hr hrb hs.len12
+    intro R hR
+    apply hd
+    unfold headerProtected
+    exact List.mem_append_left _ hR
+  refine ⟨by rw [hlen]; exact hs.len12, by rw [hcf]; exact hs.ver, by rw [hcf]; exact hs.src,
+    by rw [hcf]; exact hs.dst, by rw [hcf]; exact hs.pt, by rw [hcf]; exact hs.pl, by rw [hcf]; exact hs.hl,
+    hs.sum, by rw [hlen]; exact hs.fits, ?_⟩
+  have hp := hs.path
+  unfold PathSpec at hp ⊢
+  split at hp <;> rename_i hk <;> (try simp only [hk])
+  · obtain ⟨h1, h2, h3⟩ := hp
+    refine ⟨by rw [hlen]; exact h1, ?_, h3⟩
+    rw [segFields_write v r x _ hr hrb h1]
+    · exact h2
+    · intro R hR
+      apply hd
+      unfold headerProtected
+      apply List.mem_append_right
+      have e : pathKind (commonFields v).pt = PathKind.scion := by rw [← hs.pt]; exact hk
+      simp only [e]
+      have eo : l.pathOff = CommonHeader.SIZE_BYTES + addrHdrSize (addrSize (commonFields v).st) (addrSize (commonFields v).dt) := by
+        unfold HdrLayout.pathOff; rw [hs.src, hs.dst]
+      rw [← eo]
+      simp only [List.mem_cons, List.mem_nil_iff, or_false] at hR ⊢
+      rcases hR with rfl | rfl | rfl <;> simp
+  · exact hp
+  · exact hp
+  · exact hp
+
+
+theorem pktPayload_write (v : Bytes) (r : BitRange) (x : Nat) (hr : r.wf) (hrb : r.byteHi ≤ v.length)
+    (hcf : commonFields (writeBits v r x) = commonFields v) :
+    (pktPayload (writeBits v r x)).length = (pktPayload v).length ∧
+    pktHl (writeBits v r x) = pktHl v ∧ pktPl (writeBits v r x) = pktPl v := by
+  have hlen := writeBits_length v r x hr hrb
+  unfold pktPayload pktHl pktPl payloadRange
+  rw [hcf]
+  simp only [List.length_take, List.length_drop, hlen]
+  exact ⟨trivial, trivial, trivial⟩
+
+/-- **a size-neutral write keeps `has_required_size`** (all view kinds) -/
+theorem write_preserves_size_view (k : ViewKind) (v : Bytes) (r : BitRange) (x : Nat)
+    (h : requiredSize k v = .ok v.length) (hn : sizeNeutral k v r) :
+    requiredSize k (writeBits v r x) = .ok v.length := by
+  obtain ⟨hr, hrb, hd⟩ := hn
+  have hlen := writeBits_length v r x hr hrb
+  cases k with
+  | header =>
+    simp only [requiredSize, Header.requiredSize] at h ⊢
+    split at h
+    · rename_i l hl
+      injection h with h
+      have hs := hdrSpec_write ((Header.layout_ok_iff v l).1 hl) r x hr hrb hd
+      rw [(Header.layout_ok_iff _ l).2 hs]
+      simp only [h]
+    · contradiction
+  | stdPath =>
+    obtain ⟨h1, h2, h3⟩ := (StdPath.requiredSize_ok_iff v _).1 h
+    refine (StdPath.requiredSize_ok_iff _ _).2 ⟨by rw [hlen]; exact h1, ?_, by rw [hlen]; exact h3⟩
+    rw [segFields_write v r x 0 hr hrb (by omega)]
+    · exact h2
+    · intro R hR
+      apply hd
+      simp only [protectedRanges, List.mem_cons, List.mem_nil_iff, or_false] at hR ⊢
+      rcases hR with rfl | rfl | rfl <;> simp [BitRange.shift]
+  | oneHop =>
+    obtain ⟨h1, h2⟩ := (fixed_ok_iff _ _ v _).1 h
+    exact (fixed_ok_iff _ _ _ _).2 ⟨by rw [hlen]; exact h1, h2⟩
+  | infoField =>
+    obtain ⟨h1, h2⟩ := (fixed_ok_iff _ _ v _).1 h
+    exact (fixed_ok_iff _ _ _ _).2 ⟨by rw [hlen]; exact h1, h2⟩
+  | hopField =>
+    obtain ⟨h1, h2⟩ := (fixed_ok_iff _ _ v _).1 h
+    exact (fixed_ok_iff _ _ _ _).2 ⟨by rw [hlen]; exact h1, h2⟩
+  | rawPacket =>
+    simp only [requiredSize, RawPacket.requiredSize] at h ⊢
+    split at h
+    · rename_i l hl
+      have hs := hdrSpec_write ((Header.layout_ok_iff v l).1 hl) r x hr hrb hd
+      rw [(Header.layout_ok_iff _ l).2 hs, hlen]
+      exact h
+    · contradiction
+  | udpPacket =>
+    simp only [requiredSize, UdpPacket.requiredSize] at h ⊢
+    split at h
+    · rename_i l hl
+      split at h
+      · rename_i m hm
+        have hs0 := (Header.layout_ok_iff v l).1 hl
+        have hdh : ∀ p ∈ headerProtected v, r.disjoint p := fun p hp => hd p (List.mem_append_left _ hp)
+        have hs := hdrSpec_write hs0 r x hr hrb hdh
+        rw [(Header.layout_ok_iff _ l).2 hs, hlen]
+        simp only []
+        have hcf : commonFields (writeBits v r x) = commonFields v := by
+          apply commonFields_write v r x hr hrb hs0.len12
+          intro R hR; apply hdh; unfold headerProtected; exact List.mem_append_left _ hR
+        obtain ⟨pl1, pl2, pl3⟩ := pktPayload_write v r x hr hrb hcf
+        rw [packetPayload_eq v l hs0.hl hs0.pl] at hm
+        rw [packetPayload_eq _ l hs.hl hs.pl]
+        obtain ⟨u1, u2, u3⟩ := (Udp.requiredSize_ok_iff _ _).1 hm
+        have hfit := hs0.fits
+        have hhl : l.headerLen = pktHl v := hs0.hl
+        have hplen := pktPayload_length v (by omega)
+        have hread : readBits (pktPayload (writeBits v r x)) UdpDatagram.LENGTH_RNG
+            = readBits (pktPayload v) UdpDatagram.LENGTH_RNG := by
+          unfold pktPayload payloadRange
+          simp only [hlen, pl2, pl3]
+          have hsz : pktHl v + min (pktPl v) (v.length - pktHl v) - pktHl v = min (pktPl v) (v.length - pktHl v) := by omega
+          rw [hsz]
+          apply readBits_write_sub v r _ x _ _ hr hrb (by decide)
+          · have : UdpDatagram.LENGTH_RNG.byteHi ≤ UdpDatagram.HEADER_SIZE_BYTES := by decide
+            omega
+          · omega
+          · apply hd
+            apply List.mem_append_right
+            simp
+        have : Udp.requiredSize (pktPayload (writeBits v r x)) = .ok (min (pktPayload (writeBits v r x)).length
+            (readBits (pktPayload (writeBits v r x)) UdpDatagram.LENGTH_RNG)) :=
+          (Udp.requiredSize_ok_iff _ _).2 ⟨by rw [pl1]; exact u1, by rw [hread]; exact u2, rfl⟩
+        rw [this]
+        exact h
+      · contradiction
+    · contradiction
+  | scmpPacket =>
+    simp only [requiredSize, ScmpPacket.requiredSize] at h ⊢
+    split at h
+    · rename_i l hl
+      split at h
+      · rename_i m hm
+        have hs0 := (Header.layout_ok_iff v l).1 hl
+        have hdh : ∀ p ∈ headerProtected v, r.disjoint p := fun p hp => hd p (List.mem_append_left _ hp)
+        have hs := hdrSpec_write hs0 r x hr hrb hdh
+        rw [(Header.layout_ok_iff _ l).2 hs, hlen]
+        simp only []
+        have hcf : commonFields (writeBits v r x) = commonFields v := by
+          apply commonFields_write v r x hr hrb hs0.len12
+          intro R hR; apply hdh; unfold headerProtected; exact List.mem_append_left _ hR
+        obtain ⟨pl1, pl2, pl3⟩ := pktPayload_write v r x hr hrb hcf
+        rw [packetPayload_eq v l hs0.hl hs0.pl] at hm
+        rw [packetPayload_eq _ l hs.hl hs.pl]
+        have hmin := Scmp.min_le _ _ hm
+        rw [Scmp.requiredSize_eq _ hmin] at hm
+        obtain ⟨u1, u2⟩ := (ScmpMsg.requiredSize_ok_iff _ _ _).1 hm
+        have hfit := hs0.fits
+        have hhl : l.headerLen = pktHl v := hs0.hl
+        have hplen := pktPayload_length v (by omega)
+        have hread : readBits ((pktPayload (writeBits v r x)).take scmpMinSize) ScmpMessage.TYPE_RNG
+            = readBits ((pktPayload v).take scmpMinSize) ScmpMessage.TYPE_RNG := by
+          rw [readBits_take _ _ _ (by decide) scmpMinSize_type, readBits_take _ _ _ (by decide) scmpMinSize_type]
+          unfold pktPayload payloadRange
+          simp only [hlen, pl2, pl3]
+          have hsz : pktHl v + min (pktPl v) (v.length - pktHl v) - pktHl v = min (pktPl v) (v.length - pktHl v) := by omega
+          rw [hsz]
+          apply readBits_write_sub v r _ x _ _ hr hrb (by decide)
+          · have := scmpMinSize_type
+            omega
+          · omega
+          · apply hd
+            apply List.mem_append_right
+            simp
+        rw [Scmp.requiredSize_eq _ (by rw [pl1]; exact hmin), hread]
+        have : ScmpMsg.requiredSize (scmpRow (readBits ((pktPayload v).take scmpMinSize) ScmpMessage.TYPE_RNG))
+            (pktPayload (writeBits v r x)) = .ok m := by
+          refine (ScmpMsg.requiredSize_ok_iff _ _ _).2 ⟨by rw [pl1]; exact u1, by rw [pl1]; exact u2⟩
+        rw [this]
+        exact h
+      · contradiction
+    · contradiction
+  | udp =>
+    obtain ⟨h1, h2, h3⟩ := (Udp.requiredSize_ok_iff v _).1 h
+    have hread : readBits (writeBits v r x) UdpDatagram.LENGTH_RNG = readBits v UdpDatagram.LENGTH_RNG :=
+      readBits_writeBits_disjoint v r _ x hr hrb (by decide)
+        (Nat.le_trans (by decide : UdpDatagram.LENGTH_RNG.byteHi ≤ UdpDatagram.HEADER_SIZE_BYTES) h1)
+        (hd _ (by simp [protectedRanges]))
+    exact (Udp.requiredSize_ok_iff _ _).2 ⟨by rw [hlen]; exact h1, by rw [hread]; exact h2, by rw [hread, hlen]; exact h3⟩
+  | scmp =>
+    have hmin := Scmp.min_le _ _ h
+    simp only [requiredSize] at h ⊢
+    rw [Scmp.requiredSize_eq _ hmin] at h
+    obtain ⟨u1, u2⟩ := (ScmpMsg.requiredSize_ok_iff _ _ _).1 h
+    have hread : readBits ((writeBits v r x).take scmpMinSize) ScmpMessage.TYPE_RNG
+        = readBits (v.take scmpMinSize) ScmpMessage.TYPE_RNG :=
+      readBits_write_prefix v r _ x _ hr hrb (by decide) scmpMinSize_type hmin (hd _ (by simp [protectedRanges]))
+    rw [Scmp.requiredSize_eq _ (by rw [hlen]; exact hmin), hread]
+    exact (ScmpMsg.requiredSize_ok_iff _ _ _).2 ⟨by rw [hlen]; exact u1, by rw [hlen]; exact u2⟩
+  | scmpMsg i =>
+    obtain ⟨u1, u2⟩ := (ScmpMsg.requiredSize_ok_iff _ _ _).1 h
+    exact (ScmpMsg.requiredSize_ok_iff _ _ _).2 ⟨by rw [hlen]; exact u1, by rw [hlen]; exact u2⟩
+
+
+/-! ## the crate's safe setters are size-neutral -/
+
+/-- `r'` is a sub-range of `r` (a write through a mutable slice accessor touches a sub-range of the slice) -/
+def BitRange.sub (r' r : BitRange) : Prop := r'.wf ∧ r.start ≤ r'.start ∧ r'.stop ≤ r.stop
+
+theorem sub_byteHi {r' r : BitRange} (h : BitRange.sub r' r) : r'.byteHi ≤ r.byteHi := by
+  unfold BitRange.sub at h; unfold BitRange.byteHi; omega
+
+theorem sub_disjoint {r' r p : BitRange} (h : BitRange.sub r' r) (hd : r.disjoint p) : r'.disjoint p := by
+  unfold BitRange.sub BitRange.wf at h; unfold BitRange.disjoint at *; omega
+
+theorem neutral_of_sub {k : ViewKind} {v : Bytes} {r' r : BitRange} (h : BitRange.sub r' r)
+    (hb : r.byteHi ≤ v.length) (hd : ∀ p ∈ protectedRanges k v, r.disjoint p) : sizeNeutral k v r' :=
+  ⟨h.1, Nat.le_trans (sub_byteHi h) hb, fun p hp => sub_disjoint h (hd p hp)⟩
+
+theorem byteHi_mul8 (a b : Nat) : (BitRange.mk a (b * 8)).byteHi = b := by
+  unfold BitRange.byteHi; simp; omega
+
+/-- every safe setter of the header view (and every write through `path_mut()`'s mutable sub-views) is
+size-neutral on an accepted header -/
+theorem headerSafe_neutral (k : ViewKind) (v : Bytes) (l : HdrLayout) (hs : HdrSpec v l) (hlen : l.headerLen ≤ v.length)
+    (hk : protectedRanges k v = headerProtected v ∨
+          protectedRanges k v = headerProtected v ++ [UdpDatagram.LENGTH_RNG.shift (pktHl v)] ∨
+          protectedRanges k v = headerProtected v ++ [ScmpMessage.TYPE_RNG.shift (pktHl v)])
+    (r : BitRange) (hr : r ∈ headerSafe v) (r' : BitRange) (hsub : BitRange.sub r' r) : sizeNeutral k v r' := by
+  have h12 := hs.len12
+  have hsum := hs.sum
+  have hhl := hs.hl
+  have hpath := hs.path
+  unfold HdrLayout.pathOff at hsum
+  rw [hs.src, hs.dst] at hsum
+  unfold PathSpec at hpath
+  rw [hs.pt] at hpath
+  unfold HdrLayout.pathOff at hpath
+  rw [hs.src, hs.dst] at hpath
+  have hadd := addrHdrSize_eq (addrSize (commonFields v).st) (addrSize (commonFields v).dt)
+  have e16 : AddressHeader.FIXED_SIZE_BITS / 8 = 16 := by decide
+  have e12 : CommonHeader.SIZE_BYTES = 12 := by decide
+  have e4 : StdPathMeta.SIZE_BYTES = 4 := by decide
+  have e32 : OneHopPath.SIZE_BYTES = 32 := by decide
+  have hpk : pktHl v = l.headerLen := hs.hl.symm
+  generalize hoff : CommonHeader.SIZE_BYTES + addrHdrSize (addrSize (commonFields v).st) (addrSize (commonFields v).dt) = off at *
+  have hoff28 : 28 ≤ off := by omega
+  apply neutral_of_sub hsub
+  · -- in bounds
+    unfold headerSafe at hr
+    simp only [hoff] at hr
+    rcases List.mem_append.1 hr with hr | hr
+    · simp only [List.mem_cons, List.mem_nil_iff, or_false] at hr
+      rcases hr with rfl | rfl | rfl | rfl | rfl | rfl | rfl <;>
+        simp [BitRange.byteHi, BitRange.shift, CommonHeader.TRAFFIC_CLASS_RNG, CommonHeader.FLOW_ID_RNG,
+          CommonHeader.NEXT_HEADER_RNG, AddressHeader.SRC_ISD_RNG, AddressHeader.SRC_AS_RNG,
+          AddressHeader.DST_ISD_RNG, AddressHeader.DST_AS_RNG, e12] <;> omega
+    · split at hpath <;> rename_i hkk <;> simp only [hkk] at hr
+      · simp only [List.mem_cons, List.mem_nil_iff, or_false] at hr
+        obtain ⟨p1, p2, p3⟩ := hpath
+        rcases hr with rfl | rfl | rfl
+        · simp [BitRange.byteHi, BitRange.shift, StdPathMeta.CURR_INFO_FIELD_RNG]; omega
+        · simp [BitRange.byteHi, BitRange.shift, StdPathMeta.CURR_HOP_FIELD_RNG]; omega
+        · rw [byteHi_mul8]; omega
+      · simp only [List.mem_cons, List.mem_nil_iff, or_false] at hr
+        subst hr
+        rw [byteHi_mul8]; omega
+      · simp at hr
+      · simp only [List.mem_cons, List.mem_nil_iff, or_false] at hr
+        subst hr
+        rw [byteHi_mul8]; omega
+  · -- disjoint from every protected range
+    intro p hp
+    have hp' : p ∈ headerProtected v ∨ p = UdpDatagram.LENGTH_RNG.shift (pktHl v) ∨ p = ScmpMessage.TYPE_RNG.shift (pktHl v) := by
+      rcases hk with hk | hk | hk <;> rw [hk] at hp
+      · exact Or.inl hp
+      · rcases List.mem_append.1 hp with hp | hp
+        · exact Or.inl hp
+        · simp at hp; exact Or.inr (Or.inl hp)
+      · rcases List.mem_append.1 hp with hp | hp
+        · exact Or.inl hp
+        · simp at hp; exact Or.inr (Or.inr hp)
+    -- every safe range ends at or before bit `8 * headerLen` and starts at bit 4 or later
+    have hrange : r.stop ≤ l.headerLen * 8 ∧
+        (r = CommonHeader.TRAFFIC_CLASS_RNG ∨ r = CommonHeader.FLOW_ID_RNG ∨ r = CommonHeader.NEXT_HEADER_RNG ∨
+         (96 ≤ r.start ∧ r.stop ≤ off * 8) ∨
+         (pathKind (commonFields v).pt = .scion ∧ (r = StdPathMeta.CURR_INFO_FIELD_RNG.shift off ∨
+            r = StdPathMeta.CURR_HOP_FIELD_RNG.shift off ∨ (off + 4) * 8 ≤ r.start)) ∨
+         (pathKind (commonFields v).pt ≠ .scion ∧ off * 8 ≤ r.start)) := by
+      unfold headerSafe at hr
+      simp only [hoff] at hr
+      rcases List.mem_append.1 hr with hr | hr
+      · simp only [List.mem_cons, List.mem_nil_iff, or_false] at hr
+        rcases hr with rfl | rfl | rfl | rfl | rfl | rfl | rfl
+        · exact ⟨by simp [CommonHeader.TRAFFIC_CLASS_RNG]; omega, Or.inl rfl⟩
+        · exact ⟨by simp [CommonHeader.FLOW_ID_RNG]; omega, Or.inr (Or.inl rfl)⟩
+        · exact ⟨by simp [CommonHeader.NEXT_HEADER_RNG]; omega, Or.inr (Or.inr (Or.inl rfl))⟩
+        all_goals
+          refine ⟨by simp [BitRange.shift, AddressHeader.SRC_ISD_RNG, AddressHeader.SRC_AS_RNG,
+            AddressHeader.DST_ISD_RNG, AddressHeader.DST_AS_RNG, e12]; omega, Or.inr (Or.inr (Or.inr (Or.inl ?_)))⟩
+          simp [BitRange.shift, AddressHeader.SRC_ISD_RNG, AddressHeader.SRC_AS_RNG,
+            AddressHeader.DST_ISD_RNG, AddressHeader.DST_AS_RNG, e12]; omega
+      · split at hpath <;> rename_i hkk <;> simp only [hkk] at hr
+        · simp only [List.mem_cons, List.mem_nil_iff, or_false] at hr
+          obtain ⟨p1, p2, p3⟩ := hpath
+          rcases hr with rfl | rfl | rfl
+          · exact ⟨by simp [BitRange.shift, StdPathMeta.CURR_INFO_FIELD_RNG]; omega,
+              Or.inr (Or.inr (Or.inr (Or.inr (Or.inl ⟨hkk, Or.inl rfl⟩))))⟩
+          · exact ⟨by simp [BitRange.shift, StdPathMeta.CURR_HOP_FIELD_RNG]; omega,
+              Or.inr (Or.inr (Or.inr (Or.inr (Or.inl ⟨hkk, Or.inr (Or.inl rfl)⟩))))⟩
+          · exact ⟨by simp; omega, Or.inr (Or.inr (Or.inr (Or.inr (Or.inl ⟨hkk, Or.inr (Or.inr (by simp; omega))⟩))))⟩
+        · simp only [List.mem_cons, List.mem_nil_iff, or_false] at hr
+          subst hr
+          exact ⟨by simp; omega, Or.inr (Or.inr (Or.inr (Or.inr (Or.inr ⟨by rw [hkk]; simp, by simp⟩))))⟩
+        · simp at hr
+        · simp only [List.mem_cons, List.mem_nil_iff, or_false] at hr
+          subst hr
+          exact ⟨by simp; omega, Or.inr (Or.inr (Or.inr (Or.inr (Or.inr ⟨by rw [hkk]; simp, by simp⟩))))⟩
+    obtain ⟨hstop, hcases⟩ := hrange
+    rcases hp' with hp' | rfl | rfl
+    · unfold headerProtected at hp'
+      simp only [hoff] at hp'
+      rcases List.mem_append.1 hp' with hp' | hp'
+      · simp only [List.mem_cons, List.mem_nil_iff, or_false] at hp'
+        rcases hcases with rfl | rfl | rfl | ⟨c1, c2⟩ | ⟨_, rfl | rfl | c⟩ | ⟨_, c⟩ <;>
+          rcases hp' with rfl | rfl | rfl | rfl | rfl | rfl <;>
+          simp [BitRange.disjoint, BitRange.shift, CommonHeader.VERSION_RNG, CommonHeader.HEADER_LEN_RNG,
+            CommonHeader.PAYLOAD_LEN_RNG, CommonHeader.PATH_TYPE_RNG, CommonHeader.DST_ADDR_INFO_RNG,
+            CommonHeader.SRC_ADDR_INFO_RNG, CommonHeader.TRAFFIC_CLASS_RNG, CommonHeader.FLOW_ID_RNG,
+            CommonHeader.NEXT_HEADER_RNG, StdPathMeta.CURR_INFO_FIELD_RNG, StdPathMeta.CURR_HOP_FIELD_RNG] <;> omega
+      · split at hp' <;> rename_i hkk
+        · simp only [List.mem_cons, List.mem_nil_iff, or_false] at hp'
+          rcases hcases with rfl | rfl | rfl | ⟨c1, c2⟩ | ⟨_, rfl | rfl | c⟩ | ⟨c0, c⟩ <;>
+            rcases hp' with rfl | rfl | rfl <;>
+            (try (exact absurd hkk c0)) <;>
+            simp [BitRange.disjoint, BitRange.shift, StdPathMeta.SEG0_LEN_RNG, StdPathMeta.SEG1_LEN_RNG,
+              StdPathMeta.SEG2_LEN_RNG, CommonHeader.TRAFFIC_CLASS_RNG, CommonHeader.FLOW_ID_RNG,
+              CommonHeader.NEXT_HEADER_RNG, StdPathMeta.CURR_INFO_FIELD_RNG, StdPathMeta.CURR_HOP_FIELD_RNG] <;> omega
+        · simp at hp'
+    · simp [BitRange.disjoint, BitRange.shift, UdpDatagram.LENGTH_RNG]; omega
+    · simp [BitRange.disjoint, BitRange.shift, ScmpMessage.TYPE_RNG]; omega
+
+
+/-- **safe setters are size-neutral**: on an accepted view, every write through a safe setter or through a
+mutable slice handed out by a safe accessor (any sub-range of an entry of `safeSetterRanges`) is inside the
+view and shares no bit with a size-determining field. -/
+theorem safe_setters_neutral (k : ViewKind) (v : Bytes) (h : requiredSize k v = .ok v.length)
+    (r : BitRange) (hr : r ∈ safeSetterRanges k v) (r' : BitRange) (hsub : BitRange.sub r' r) :
+    sizeNeutral k v r' := by
+  cases k with
+  | header =>
+    simp only [requiredSize, Header.requiredSize] at h
+    split at h
+    · rename_i l hl
+      injection h with h
+      exact headerSafe_neutral _ v l ((Header.layout_ok_iff v l).1 hl) (by omega) (Or.inl rfl) r hr r' hsub
+    · contradiction
+  | rawPacket =>
+    obtain ⟨l, hs, h1, h2, h3, h4⟩ := raw_valid v h
+    simp only [safeSetterRanges] at hr
+    rcases List.mem_append.1 hr with hr | hr
+    · exact headerSafe_neutral _ v l hs h3 (Or.inl rfl) r hr r' hsub
+    · simp only [List.mem_cons, List.mem_nil_iff, or_false] at hr
+      subst hr
+      apply neutral_of_sub hsub
+      · rw [byteHi_mul8]; exact Nat.le_refl _
+      · intro p hp
+        simp only [protectedRanges] at hp
+        -- every protected header bit lies before bit 8 * headerLen
+        have hsum := hs.sum
+        have hpath := hs.path
+        unfold HdrLayout.pathOff at hsum
+        unfold PathSpec at hpath
+        rw [hs.pt] at hpath
+        unfold HdrLayout.pathOff at hpath
+        rw [hs.src, hs.dst] at hsum hpath
+        have e12 : CommonHeader.SIZE_BYTES = 12 := by decide
+        have e4 : StdPathMeta.SIZE_BYTES = 4 := by decide
+        unfold headerProtected at hp
+        rcases List.mem_append.1 hp with hp | hp
+        · simp only [List.mem_cons, List.mem_nil_iff, or_false] at hp
+          rcases hp with rfl | rfl | rfl | rfl | rfl | rfl <;>
+            simp [BitRange.disjoint, CommonHeader.VERSION_RNG, CommonHeader.HEADER_LEN_RNG,
+              CommonHeader.PAYLOAD_LEN_RNG, CommonHeader.PATH_TYPE_RNG, CommonHeader.DST_ADDR_INFO_RNG,
+              CommonHeader.SRC_ADDR_INFO_RNG] <;> omega
+        · split at hpath <;> rename_i hkk <;> simp only [hkk] at hp
+          · obtain ⟨p1, p2, p3⟩ := hpath
+            simp only [List.mem_cons, List.mem_nil_iff, or_false] at hp
+            rcases hp with rfl | rfl | rfl <;>
+              simp [BitRange.disjoint, BitRange.shift, StdPathMeta.SEG0_LEN_RNG, StdPathMeta.SEG1_LEN_RNG,
+                StdPathMeta.SEG2_LEN_RNG] <;> omega
+          · simp at hp
+          · simp at hp
+          · simp at hp
+  | udpPacket =>
+    simp only [requiredSize, UdpPacket.requiredSize] at h
+    split at h
+    · rename_i l hl
+      have hs := (Header.layout_ok_iff v l).1 hl
+      exact headerSafe_neutral _ v l hs hs.fits (Or.inr (Or.inl rfl)) r hr r' hsub
+    · contradiction
+  | scmpPacket =>
+    simp only [requiredSize, ScmpPacket.requiredSize] at h
+    split at h
+    · rename_i l hl
+      have hs := (Header.layout_ok_iff v l).1 hl
+      exact headerSafe_neutral _ v l hs hs.fits (Or.inr (Or.inr rfl)) r hr r' hsub
+    · contradiction
+  | stdPath =>
+    obtain ⟨h1, h2, h3⟩ := (StdPath.requiredSize_ok_iff v _).1 h
+    have e4 : StdPathMeta.SIZE_BYTES = 4 := by decide
+    simp only [safeSetterRanges, List.mem_cons, List.mem_nil_iff, or_false] at hr
+    apply neutral_of_sub hsub
+    · rcases hr with rfl | rfl | rfl
+      · simp [BitRange.byteHi, StdPathMeta.CURR_INFO_FIELD_RNG]; omega
+      · simp [BitRange.byteHi, StdPathMeta.CURR_HOP_FIELD_RNG]; omega
+      · rw [byteHi_mul8]; exact Nat.le_refl _
+    · intro p hp
+      simp only [protectedRanges, List.mem_cons, List.mem_nil_iff, or_false] at hp
+      rcases hr with rfl | rfl | rfl <;> rcases hp with rfl | rfl | rfl <;>
+        simp [BitRange.disjoint, StdPathMeta.SEG0_LEN_RNG, StdPathMeta.SEG1_LEN_RNG, StdPathMeta.SEG2_LEN_RNG,
+          StdPathMeta.CURR_INFO_FIELD_RNG, StdPathMeta.CURR_HOP_FIELD_RNG, e4]
+  | oneHop =>
+    obtain ⟨h1, h2⟩ := (fixed_ok_iff _ _ v _).1 h
+    simp only [safeSetterRanges, List.mem_cons, List.mem_nil_iff, or_false] at hr
+    subst hr
+    have e : OneHopPath.TOTAL.byteHi = OneHopPath.SIZE_BYTES := by decide
+    exact neutral_of_sub hsub (by omega) (by intro p hp; simp [protectedRanges] at hp)
+  | infoField =>
+    obtain ⟨h1, h2⟩ := (fixed_ok_iff _ _ v _).1 h
+    simp only [safeSetterRanges, List.mem_cons, List.mem_nil_iff, or_false] at hr
+    subst hr
+    have e : InfoField.TOTAL_RNG.byteHi = InfoField.SIZE_BYTES := by decide
+    exact neutral_of_sub hsub (by omega) (by intro p hp; simp [protectedRanges] at hp)
+  | hopField =>
+    obtain ⟨h1, h2⟩ := (fixed_ok_iff _ _ v _).1 h
+    simp only [safeSetterRanges, List.mem_cons, List.mem_nil_iff, or_false] at hr
+    subst hr
+    have e : HopField.TOTAL_RNG.byteHi = HopField.SIZE_BYTES := by decide
+    exact neutral_of_sub hsub (by omega) (by intro p hp; simp [protectedRanges] at hp)
+  | udp =>
+    obtain ⟨h1, h2, h3⟩ := (Udp.requiredSize_ok_iff v _).1 h
+    have e8 : UdpDatagram.HEADER_SIZE_BYTES = 8 := by decide
+    simp only [safeSetterRanges, List.mem_cons, List.mem_nil_iff, or_false] at hr
+    apply neutral_of_sub hsub
+    · rcases hr with rfl | rfl | rfl | rfl
+      · simp [BitRange.byteHi, UdpDatagram.SRC_PORT_RNG]; omega
+      · simp [BitRange.byteHi, UdpDatagram.DST_PORT_RNG]; omega
+      · simp [BitRange.byteHi, UdpDatagram.CHECKSUM_RNG]; omega
+      · rw [byteHi_mul8]; exact Nat.le_refl _
+    · intro p hp
+      simp only [protectedRanges, List.mem_cons, List.mem_nil_iff, or_false] at hp
+      subst hp
+      rcases hr with rfl | rfl | rfl | rfl <;>
+        simp [BitRange.disjoint, UdpDatagram.SRC_PORT_RNG, UdpDatagram.DST_PORT_RNG, UdpDatagram.CHECKSUM_RNG,
+          UdpDatagram.LENGTH_RNG, e8]
+  | scmp =>
+    have hmin := Scmp.min_le _ _ h
+    have e8 : scmpMinSize = 8 := by decide
+    simp only [safeSetterRanges, List.mem_cons, List.mem_nil_iff, or_false] at hr
+    apply neutral_of_sub hsub
+    · rcases hr with rfl | rfl | rfl
+      · simp [BitRange.byteHi, ScmpMessage.CODE_RNG]; omega
+      · simp [BitRange.byteHi, ScmpMessage.CHECKSUM_RNG]; omega
+      · rw [byteHi_mul8]; exact Nat.le_refl _
+    · intro p hp
+      simp only [protectedRanges, List.mem_cons, List.mem_nil_iff, or_false] at hp
+      subst hp
+      rcases hr with rfl | rfl | rfl <;>
+        simp [BitRange.disjoint, ScmpMessage.CODE_RNG, ScmpMessage.CHECKSUM_RNG, ScmpMessage.TYPE_RNG]
+  | scmpMsg i => simp [safeSetterRanges] at hr
+
+/-! ## mutator sequences -/
+
+/-- a sequence of writes, each size-neutral on the bytes it is applied to -/
+def NeutralSeq (k : ViewKind) : Bytes → List (BitRange × Nat) → Prop
+  | _, [] => True
+  | v, (r, x) :: ws => sizeNeutral k v r ∧ NeutralSeq k (writeBits v r x) ws
+
+def applyWrites (v : Bytes) (ws : List (BitRange × Nat)) : Bytes :=
+  ws.foldl (fun b w => writeBits b w.1 w.2) v
+
+theorem writes_preserve_size_view (k : ViewKind) (v : Bytes) (ws : List (BitRange × Nat))
+    (h : requiredSize k v = .ok v.length) (hn : NeutralSeq k v ws) :
+    (applyWrites v ws).length = v.length ∧ requiredSize k (applyWrites v ws) = .ok v.length := by
+  induction ws generalizing v with
+  | nil => exact ⟨rfl, h⟩
+  | cons w ws ih =>
+    obtain ⟨r, x⟩ := w
+    obtain ⟨h1, h2⟩ := hn
+    have hl := writeBits_length v r x h1.1 h1.2.1
+    have := ih (writeBits v r x) (by rw [hl]; exact write_preserves_size_view k v r x h h1) h2
+    simp only [applyWrites, List.foldl_cons] at this ⊢
+    rw [hl] at this
+    exact this
+
+/-- `stdDataSize` is invariant under the two permutations `try_reverse` applies to the segment lengths -/
+theorem stdDataSize_swap02 (a b c : Nat) : stdDataSize c b a = stdDataSize a b c := by
+  have h1 : infoCount c b a = infoCount a b c := by unfold infoCount; omega
+  have h2 : hopCount c b a = hopCount a b c := by unfold hopCount; omega
+  unfold stdDataSize; rw [h1, h2]
+theorem stdDataSize_swap01 (a b c : Nat) : stdDataSize b a c = stdDataSize a b c := by
+  have h1 : infoCount b a c = infoCount a b c := by unfold infoCount; omega
+  have h2 : hopCount b a c = hopCount a b c := by unfold hopCount; omega
+  unfold stdDataSize; rw [h1, h2]
+
+end ScionVerif.Access
